@@ -417,7 +417,7 @@ Definition hist_model (c : World.world * list op) : list value :=
                     {'op': 'value', 'chain': 0, 'pick': 3}]
         out.append(c)
         # a stored result downstream of an in-memory task, requested again by a new process
-        from .suites_chain import K
+        from .suites_chain import K, P
         base = {'name': 'm', 'data': {'tasks': ['@M.*']}}
         out.append(dict(classes=[K(0, 'Up', data='memory'), K(1, 'Mid', meta_inputs=[{'cls': 0}]),
                                  K(2, 'Down', meta_inputs=[{'cls': 1}])],
@@ -426,6 +426,13 @@ Definition hist_model (c : World.world * list op) : list value :=
                              {'op': 'build', 'base': base}, {'op': 'value', 'chain': 0, 'pick': 2},
                              {'op': 'flags', 'chain': 0}, {'op': 'value', 'chain': 0, 'pick': 1},
                              {'op': 'build', 'base': base}, {'op': 'value', 'chain': 1, 'pick': 2}]))
+        # a namespace whose name is a textual prefix of an input's name, with a same-named task at the root
+        tx = [dict(K(0, 'TrainX', params=[P('seed')]), name='train_x'), dict(K(1, 'Model', meta_inputs=[{'cls': 0}]), name='model')]
+        nsbase = {'name': 'main', 'data': {'tasks': ['@M.TrainX'], 'seed': 1, 'uses': 'inner.json as train'}}
+        out.append(dict(classes=tx, files={'inner.json': {'tasks': ['@M.*'], 'seed': 2}}, base=nsbase, context=None,
+                        ops=[{'op': 'build', 'base': nsbase}, {'op': 'value', 'chain': 0, 'pick': 0},
+                             {'op': 'value', 'chain': 0, 'pick': 1}, {'op': 'value', 'chain': 0, 'pick': 2},
+                             {'op': 'restart'}, {'op': 'build', 'base': nsbase}, {'op': 'value', 'chain': 0, 'pick': 1}]))
         # the same, with the inputs named in the signature of run (requested before the body of run starts)
         out.append(dict(classes=[dict(K(0, 'Up', data='memory'), name='up'),
                                  dict(K(1, 'Mid', meta_inputs=[{'cls': 0}]), name='mid', runargs=['up']),
